@@ -18,7 +18,7 @@
    oracle only. *)
 From Coq Require Import List ZArith Bool Arith.
 From SC Require Import Base.Res Inst.Heap Inst.ClassTable Inst.Model Inst.Framed Inst.FrameProofs
-  Inst.FrozenProofs Props.C01 Props.C07.
+  Inst.FrozenProofs Inst.AtomicProofs Props.C01 Props.C07.
 Import ListNotations.
 Open Scope nat_scope.
 
@@ -58,6 +58,32 @@ Proof.
   exact (proj2 (exec_framed ct Hct (length (heap s)) XFUEL (KConstruct c pos kw) I s (le_n _))).
 Qed.
 
+(* in-place assignment on ANY instance (frozen or not): when nothing is
+   invalidated by the attribute, an exception leaves every pre-existing cell
+   unchanged (everything before the single write only allocates; the write is
+   the last thing that can happen).  With dependants the resets performed by
+   invalidation follow the write; that case is covered by the correspondence. *)
+Theorem C04_atomic_partial_assignment :
+  forall ct, no_dnc_classes ct ->
+  forall roots x a v s l c d k e,
+    nth x roots VNone = VRef l -> l < length (heap s) ->
+    nth_error (heap s) l = Some (OInst c d) -> lookup_cls ct c = Some k ->
+    no_dependants k a ->
+    fst (step ct roots (OpSetAttr x a v) s) = Err e ->
+    frame (length (heap s)) s (snd (step ct roots (OpSetAttr x a v) s)).
+Proof. intros ct Hct. intros. eapply setattr_op_err_frame; eauto. Qed.
+
+Theorem C04_atomic_partial_inplace_with :
+  forall ct, no_dnc_classes ct ->
+  forall roots x a h s l c d k sp e,
+    nth x roots VNone = VRef l -> l < length (heap s) ->
+    nth_error (heap s) l = Some (OInst c d) -> lookup_cls ct c = Some k ->
+    lookup_attr k a = Some sp -> a_name sp = a -> no_dependants k a ->
+    h_inplace h = true -> h_if h = true ->
+    fst (step ct roots (OpHelper x (HWith a) h) s) = Err e ->
+    frame (length (heap s)) s (snd (step ct roots (OpHelper x (HWith a) h) s)).
+Proof. intros ct Hct. intros. eapply inplace_with_op_err_frame; eauto. Qed.
+
 (* the known finding, as a theorem about the faithful model *)
 Definition kf_ct : ctable :=
   [mkcls 1 [mkattr 2 TStr VMissing None 1 true false None None [];
@@ -82,5 +108,7 @@ Proof. split; vm_compute; reflexivity. Qed.
 Print Assumptions C04_atomic_partial_cow_and_constructors.
 Print Assumptions C04_atomic_partial_frozen_inplace.
 Print Assumptions C04_constructor_result_is_fresh.
+Print Assumptions C04_atomic_partial_assignment.
+Print Assumptions C04_atomic_partial_inplace_with.
 Print Assumptions C04_multi_keyword_inplace_update_refuted.
 Print Assumptions C04_nonvacuous.
